@@ -325,7 +325,7 @@ def events(backend, quick):
         evs += [("run", f), ("compilerun", f), ("runopt", f)]
     pairs = list(itertools.product(fr, fr))
     if quick:
-        pairs = [p for k, p in enumerate(pairs) if k % 3 == 0 or p[0] == p[1]]
+        pairs = [p for k, p in enumerate(pairs) if k % 5 == 0 or p[0] == p[1]]
     for a, b in pairs:
         if (a == "free") != (b == "free"):
             continue  # one args dict is bound to every program of the list: an unknown name is (rightly) an error
@@ -351,11 +351,12 @@ def rebuild(backend, hist):
 
 
 def expand(task):
-    backend, quick, hists, maxfr = task
+    backend, quick, hists, maxfr = task[:4]
+    part, parts = task[4:] if len(task) > 4 else (0, 1)  # a slice of the events (so that a small frontier still fills all workers)
     res = Res()
     res.extra = []
     for hist in hists:
-        for ev in events(backend, quick):
+        for ev in events(backend, quick)[part::parts]:
             w = rebuild(backend, hist)
             nfr = len(w.frs) + (3 if ev[0].startswith("runchain") else 2 if ev[0] == "runlist" else 1 if ev[0] in ("run", "runopt", "compilerun") else 0)
             if nfr > maxfr:
@@ -419,8 +420,10 @@ def ancilla_histories(res):
 
 
 def run(ctx):
+    global CUTOFF
     quick = ctx.tier == "quick"
-    plans = {"gaussian": (3, 3) if quick else (4, 4), "fock": (2, 3) if quick else (3, 4), "bosonic": (2, 2) if quick else (3, 3)}
+    CUTOFF = 5 if quick else 7  # the oracle is differential at one cutoff: the value only sets the cost (workers inherit it)
+    plans = {"gaussian": (3, 3) if quick else (4, 4), "fock": (2, 2) if quick else (3, 4), "bosonic": (2, 2) if quick else (3, 3)}
     total = 0
     per = {}
     for backend, (maxfr, depth) in plans.items():
@@ -433,15 +436,24 @@ def run(ctx):
                 ctx.cap_hit(f"{backend}: time budget before depth {d}")
                 break
             chunk = max(1, len(frontier) // (ctx.procs * 3) or 1)
-            tasks = [(backend, quick, frontier[i : i + chunk], maxfr) for i in range(0, len(frontier), chunk)]
+            parts = max(1, (ctx.procs * 2) // max(1, len(frontier)))
+            tasks = [(backend, quick, frontier[i : i + chunk], maxfr, k, parts) for i in range(0, len(frontier), chunk) for k in range(parts)]
             nxt = []
             n0 = ctx.n
+            aborted = False
             for r in ctx.pmap(expand, tasks):
                 ctx.add(r)
                 for key, hist in r.extra:
                     if key not in seen:
                         seen.add(key)
                         nxt.append(hist)
+                if ctx.time_left() < 0:
+                    aborted = True
+                    break
+            if aborted:
+                ctx.close()
+                ctx.cap_hit(f"{backend}: time budget hit inside depth {d}")
+                break
             levels.append({"depth": d, "expanded": len(frontier), "transitions": ctx.n - n0, "new_states": len(nxt)})
             complete = d
             frontier = nxt
